@@ -6,7 +6,10 @@ Dialect/FaultCheck.v, on what the IMPLEMENTATION did): MoleculeResolver.from_str
 raises SyntaxError (TypeError for the non-numeric value), never returns a graph, never raises
 anything else.  Models: annotation faults = the dialect model of C14; ring faults = the ring-table
 fold AND the reader component's ReaderImpl.read_cgsmiles on the text the reader is called on; missing fragment = the loop of resolve_disconnected_molecule (Dialect/FaultModels.v); each is
-compared with the implementation on every case."""
+compared with the implementation on every case.
+Call histories: the faulty string is also read AFTER a valid string was resolved and the fragment dict of one of
+its levels was extended in place (fragment_dict argument / item assignment) in the same process: the verdict must
+not depend on that."""
 import contextlib
 import io
 import re
@@ -319,6 +322,70 @@ def resolve_all(s, aa, record=None):
         return c14.exc_desc(exc)
 
 
+# ----------------------------------------------------------------------------- call histories
+BLOCK_RE = re.compile(r'\{[^\}]+\}')
+HIST_MODES = ('arg', 'item_lib', 'item_resolver')
+
+
+def history_for(valid_parts, aa, level, mode):
+    """what a user with a fragment library does BEFORE the faulty string is read, in the same process:
+    the fragment list of `level`+1 is read (by read_fragments, or inside MoleculeResolver.from_string of the
+    valid string) and the returned dict is extended in place by a fragment #ZZ - through the documented
+    `fragment_dict` argument or by item assignment.  The string is the only input of from_string, so none of
+    this may change what happens to the faulty string."""
+    fpart = level + 1
+    if fpart >= len(valid_parts):
+        return None
+    all_atom = bool(aa and fpart == len(valid_parts) - 1)
+    if all_atom:
+        extra = '{#ZZ=[$]O[$]}'
+    else:
+        nxt = [n for n, _, _ in fragment_defs(valid_parts[fpart + 1])] if fpart + 1 < len(valid_parts) else ['X']
+        extra = '{#ZZ=[$][#%s][$]}' % nxt[0]
+    return {'mode': mode, 'frag_text': valid_parts[fpart], 'index': level, 'all_atom': all_atom, 'extra': extra}
+
+
+def play_history(case):
+    """steps (a) and (b); returns an error description if the history itself fails"""
+    from cgsmiles import read_fragments
+    from cgsmiles.resolve import MoleculeResolver
+    h = case['history']
+    try:
+        with contextlib.redirect_stdout(io.StringIO()):
+            r = MoleculeResolver.from_string(case['valid'], last_all_atom=case['aa'])
+            r.resolve_all()
+            new = read_fragments(h['extra'], all_atom=h['all_atom'])['ZZ']
+            if h['mode'] == 'arg':
+                lib = read_fragments(h['frag_text'], all_atom=h['all_atom'])
+                read_fragments(h['extra'], all_atom=h['all_atom'], fragment_dict=lib)
+            elif h['mode'] == 'item_lib':
+                lib = read_fragments(h['frag_text'], all_atom=h['all_atom'])
+                lib['ZZ'] = new
+            else:
+                r2 = MoleculeResolver.from_string(case['valid'], last_all_atom=case['aa'])
+                r2.fragment_dicts[h['index']]['ZZ'] = new
+        return None
+    except Exception as exc:
+        return c14.exc_desc(exc)
+
+
+def with_histories(rng, valid, faults, limit):
+    """history variants: every missing-fragment fault (the fragment list text of its level is reused verbatim),
+    and a few faults of the other kinds"""
+    out = []
+    frag = [f for f in faults if f['kind'] == 'frag']
+    other = [f for f in faults if f['kind'] != 'frag']
+    pick = frag + (rng.sample(other, min(len(other), 3)) if other else [])
+    if len(pick) > limit:
+        pick = rng.sample(frag, min(len(frag), limit - 2)) + pick[len(frag):][:2]
+    for f in pick:
+        level = f['level'] if f['kind'] == 'frag' else rng.randrange(0, max(1, len(valid['parts']) - 1))
+        h = history_for(valid['parts'], valid['aa'], level, rng.choice(HIST_MODES))
+        if h:
+            out.append(dict(f, history=h))
+    return out
+
+
 class C20(common.Prop):
     id = 'C20'
     level = 'proof'
@@ -353,6 +420,14 @@ class C20(common.Prop):
         for v in (base, cg, three):
             for f in all_faults(v):
                 out.append(dict(f, aa=v['aa'], valid='.'.join(v['parts'])))
+        # call histories: a fragment library is built from the very fragment list of the string first
+        lib = {'parts': ['{[#A][#A]([#A])[#A]}', '{#A=[$]CC[$][$]}'], 'aa': True}
+        for v in (lib, cg, three, base):
+            fr = frag_faults(v)
+            for k, f in enumerate(fr):
+                h = history_for(v['parts'], v['aa'], f['level'], HIST_MODES[k % 3])
+                if h:
+                    out.append(dict(f, aa=v['aa'], valid='.'.join(v['parts']), history=h))
         return out
 
     def generate(self, ctx, n):
@@ -375,6 +450,7 @@ class C20(common.Prop):
                 fs = []
                 for k in sorted(by):
                     fs += rng.sample(by[k], min(len(by[k]), max(4, per // len(by))))
+            fs = fs + with_histories(rng, v, fs, 8 if not ctx.thorough() else 40)
             for f in fs:
                 out.append(dict(f, aa=v['aa'], valid=vs))
         return out[:n]
@@ -382,6 +458,10 @@ class C20(common.Prop):
     def run_impl(self, case):
         if resolve_all(case['valid'], case['aa']) is not None:
             return {'skip': 'baseline string is not valid for the code'}
+        if case.get('history'):
+            herr = play_history(case)
+            if herr is not None:
+                return {'skip': 'the history itself failed: ' + herr}
         rec = [] if case['kind'] == 'frag' else None
         exc = resolve_all(case['s'], case['aa'], record=rec)
         out = {'exc': exc}
@@ -401,7 +481,11 @@ class C20(common.Prop):
                 return {'skip': 'renamed node is virtual (all incident orders 0): not a fault'}
             if not all(isinstance(o, int) for _, _, o in r['edges']):
                 return {'skip': 'non-integer order'}
-            out.update(nodes=r['nodes'], edges=r['edges'], dict=r['dict'], bad=real[0])
+            # the fragments the STRING defines for this level (the string is from_string's only input; the dict
+            # the code actually used is r['dict'] and must be the same)
+            blocks = BLOCK_RE.findall(case['s'])
+            defined = [n for n, _, _ in fragment_defs(blocks[case['level'] + 1])] if case['level'] + 1 < len(blocks) else []
+            out.update(nodes=r['nodes'], edges=r['edges'], dict=sorted(set(defined)), used_dict=r['dict'], bad=real[0])
         return out
 
     def coq_case(self, case, impl):
@@ -439,7 +523,8 @@ class C20(common.Prop):
             where = ':%s' % {0: 'base-node', 1: 'atom', 2: 'coarse-fragment-node'}[case['lk']]
         elif case['kind'] in ('ring', 'frag'):
             where = ':level%d' % case['where'][0]
-        return 'fault%d%s:%dlevels:%s' % (case['fault'], where, levels, impl['exc'] or 'GRAPH')
+        hist = 'history:%s:' % case['history']['mode'] if case.get('history') else ''
+        return '%sfault%d%s:%dlevels:%s' % (hist, case['fault'], where, levels, impl['exc'] or 'GRAPH')
 
 
 PROP = C20()
